@@ -73,6 +73,12 @@ func main() {
 		for _, d := range r.divisionInventory(strings.Split(*flagDivs, ",")) {
 			fmt.Printf("%q: \"\", // %s %s:%d const=%v guarded=%v\n", d.Fn+"|"+d.Divisor, d.Op, d.File, d.Line, d.Const, d.Guarded)
 		}
+		if os.Getenv("ZCHECK_NIL") != "" {
+			for _, s := range r.nilInventory(strings.Split(*flagDivs, ",")) {
+				fmt.Printf("%q: \"\", // %s:%d checked=%v use=%s\n", s.Fn+"|"+s.Callee, s.File, s.Line, s.Checked, s.Use)
+			}
+			return
+		}
 		r.SentinelPanics(strings.Split(*flagDivs, ","), nil, "")
 		for _, o := range r.Obls {
 			if o.Status == "violated" {
